@@ -691,6 +691,77 @@ example := gauss_run_is_complex_run [gi, 2] [-gi] 1 0 [3] [1, 2, -3] rfl (by dec
 example := special_cases_neutral [(1 : ℚ), -1, 0, 3] [1, -1, 0, 5] 2 7 [1, 2, 3, 4] [2, 4, 6] rfl (by simp)
 example : filterCallD [((0 : Int), (2 : Rat)), (1, 1)] none none none [1, 2] = .ok [2, 5] := by decide +kernel
 
+/-! ### C04.13 filter objects whose polynomials were assigned: the `a[0] == 0` branch -/
+
+/-- **C04.13a** (`zero_gain_refuses`): a causal filter object whose denominator has no (or a zero)
+delay-0 coefficient — possible only when the polynomials were assigned to the object, `__init__`
+never leaves one — refuses to run: ZeroDivisionError "Invalid filter gain". -/
+theorem zero_gain_refuses (num den : Terms K) (mem : Mem K) (zero : K) (xs : List K)
+    (hc : ∀ kv ∈ num ++ den, 0 ≤ kv.1) (h0 : coefAt den 0 = 0) :
+    call num den mem zero xs = .error .zeroDivision := by
+  have hcausal : checkCausal num den = true := by
+    simp only [checkCausal, Bool.not_eq_true', List.any_eq_false]
+    intro kv hm
+    have := hc kv hm
+    simp; omega
+  simp [call, hcausal, h0]
+
+/-- **C04.13b** (`callRaw_eq_specCallRaw`): a filter object whose `numpoly` / `denpoly` were assigned
+(any dictionaries: no normalisation happened): negative delay ⇒ ValueError, else `a[0] = 0` ⇒
+ZeroDivisionError, else the difference equation of the contract. -/
+theorem callRaw_eq_specCallRaw (n d : List (Int × K)) (mem : Mem K) (zero : K) (xs : List K) :
+    callRaw n d mem zero xs = specCallRaw n d mem zero xs := by
+  unfold callRaw specCallRaw
+  have hmem : ∀ (p : List (Int × K)) (kv : Int × K), kv ∈ mkPoly p → kv.1 ∈ keysNZ p := by
+    intro p kv hkv
+    exact (mem_keys_mkPoly p kv.1).1 (List.mem_map.2 ⟨kv, hkv, rfl⟩)
+  by_cases hany : (keysNZ n ++ keysNZ d).any (fun k => decide (k < 0)) = true
+  · simp only [hany, if_true]
+    obtain ⟨k, hk, hlt⟩ := List.any_eq_true.1 hany
+    have hlt' : k < 0 := by simpa using hlt
+    apply noncausal
+    rcases List.mem_append.1 hk with h | h
+    · obtain ⟨kv, hkv, hkk⟩ := List.mem_map.1 ((mem_keys_mkPoly n k).2 h)
+      exact ⟨kv, List.mem_append.2 (Or.inl hkv), by rw [hkk]; exact hlt'⟩
+    · obtain ⟨kv, hkv, hkk⟩ := List.mem_map.1 ((mem_keys_mkPoly d k).2 h)
+      exact ⟨kv, List.mem_append.2 (Or.inr hkv), by rw [hkk]; exact hlt'⟩
+  · simp only [hany, Bool.false_eq_true, if_false]
+    have hcausal : ∀ kv ∈ mkPoly n ++ mkPoly d, 0 ≤ kv.1 := by
+      intro kv hkv
+      have hk : kv.1 ∈ keysNZ n ++ keysNZ d := by
+        rcases List.mem_append.1 hkv with h | h
+        · exact List.mem_append.2 (Or.inl (hmem n kv h))
+        · exact List.mem_append.2 (Or.inr (hmem d kv h))
+      have : ¬ (kv.1 < 0) := by
+        intro hlt
+        exact hany (List.any_eq_true.2 ⟨kv.1, hk, by simpa using hlt⟩)
+      omega
+    by_cases h0 : coefLast d 0 = 0
+    · simp only [h0, if_true]
+      exact zero_gain_refuses _ _ _ _ _ hcausal (by rw [coefAt_mkPoly]; exact h0)
+    · simp only [h0, if_false]
+      rw [← filterCall_eq_specCall]
+      have h0mem : (0 : Int) ∈ keysNZ d := (mem_keysNZ_iff d 0).2 h0
+      have hmin : minKey (mkPoly d) = some 0 := by
+        rw [minKey_mkPoly]
+        rcases listMin_spec (keysNZ d) with ⟨_, h2⟩ | ⟨q, h1, h2, h3⟩
+        · rw [h2] at h0mem; simp at h0mem
+        · rw [h1]
+          have hq0 : q ≤ 0 := h3 0 h0mem
+          have hq : ¬ (q < 0) := by
+            intro hlt
+            exact hany (List.any_eq_true.2 ⟨q, List.mem_append.2 (Or.inr h2), by simpa using hlt⟩)
+          congr 1; omega
+      unfold filterCall
+      rw [normalise_ok _ _ 0 hmin]
+      rw [shiftKeys_zero, shiftKeys_zero]
+      rfl
+
+example : callRaw [((0 : Int), (1 : Rat))] [(1, 1)] Mem.none 0 [1, 2] = .error .zeroDivision := by decide +kernel
+example : callRaw [((0 : Int), (1 : Rat))] [(0, 0), (1, 1)] Mem.none 0 [1, 2] = .error .zeroDivision := by decide +kernel
+example : callRaw [((-1 : Int), (1 : Rat))] [(1, 1)] Mem.none 0 [1, 2] = .error .valueError := by decide +kernel
+example : specCallRaw [((1 : Int), (1 : Rat))] [(0, 2), (1, 1)] Mem.none 0 [1, 2] = .ok [0, 1/2] := by decide +kernel
+example := zero_gain_refuses [((0 : Int), (1 : ℚ))] [(1, 1)] Mem.none 0 [1] (by simp) (by decide +kernel)
 end ALV.Props.C04
 
 #write_audit "C04"
